@@ -273,7 +273,7 @@ class PFDLTreeVisitor(PFDLParserVisitor):
         if ctx.attribute_access():
             counting_loop.limit = self.visitAttribute_access(ctx.attribute_access())
         else:
-            counting_loop.limit = int(ctx.INTEGER().getText())
+            counting_loop.limit = self.integer_of(ctx.INTEGER(), ctx)
 
         # check if parallel keyword is there
         if ctx.PARALLEL():
@@ -361,10 +361,22 @@ class PFDLTreeVisitor(PFDLParserVisitor):
 
     def visitArray(self, ctx: PFDLParser.ArrayContext) -> Union[int, str]:
         if ctx.INTEGER():
-            return int(ctx.INTEGER().getText())
+            return self.integer_of(ctx.INTEGER(), ctx)
         if ctx.STARTS_WITH_LOWER_C_STR():
             return ctx.STARTS_WITH_LOWER_C_STR().getText()
         return -1  # No length specified
+
+    def integer_of(self, integer_token, ctx) -> int:
+        """Converts the text of an INTEGER token.
+
+        Python refuses to convert integers with too many digits (sys.get_int_max_str_digits());
+        such a number is reported instead of letting the ValueError escape.
+        """
+        try:
+            return int(integer_token.getText())
+        except ValueError:
+            self.error_handler.print_error("The integer has too many digits", context=ctx)
+            return 0
 
     def visitExpression(self, ctx: PFDLParser.ExpressionContext) -> Dict:
         length = len(ctx.children)
